@@ -7,7 +7,7 @@ REPO=$(readlink -f "$1"); shift
 TAG=$(echo "$REPO" | md5sum | cut -c1-8)
 W=/tmp/vh-$TAG
 mkdir -p "$W/harness"
-rsync -a --delete --exclude target --exclude fuzz /verif/harness/ "$W/harness/"
+rsync -a --delete --exclude target --exclude fuzz "${HSRC:-/verif/harness}/" "$W/harness/"
 rsync -a --delete /verif/regress/ "$W/regress/"
 cp /verif/known_findings.json "$W/"
 sed -i "s#/repo/#$REPO/#g" "$W/harness/Cargo.toml"
